@@ -101,6 +101,17 @@ func copies() string {
 	return fmt.Sprint(t.a, u.a, v.a, v.b, v.c, w.a, w.b, arr, q.c, ";")
 }
 
+var lazyTable = sync.OnceValue(func() []int { return []int{1, 2, 3} })
+
+// onces uses sync.OnceValue at package level and per call.
+func onces() string {
+	local := sync.OnceValue(func() int { return len(lazyTable()) })
+	f := sync.OnceFunc(func() { table["once"] = local() })
+	f()
+	f()
+	return fmt.Sprint("once", local(), table["once"], ";")
+}
+
 // ifInits exercises if statements with init clauses: the instrumenter puts a
 // yield between the init statement and the condition.
 func ifInits(n int) string {
@@ -141,7 +152,7 @@ lbl:
 
 // Run drives everything and returns a digest.
 func Run() string {
-	res := copies() + ifInits(0) + ifInits(1) + ifInits(2)
+	res := copies() + ifInits(0) + ifInits(1) + ifInits(2) + onces()
 outer:
 	for i := 0; i < 4; i++ {
 		for j := 0; j < 4; j++ {
